@@ -215,6 +215,26 @@ def ctor_cases():
     add("from_single_intervals([])", lambda: CompoundInterval.from_single_intervals([]))
     add("from_single_intervals(mixed strands)", lambda: CompoundInterval.from_single_intervals([SingleInterval(0, 2, P), SingleInterval(3, 5, Mi)]))
     add("from_single_intervals(mixed parents)", lambda: CompoundInterval.from_single_intervals([SingleInterval(0, 2, P, "a"), SingleInterval(3, 5, P, "b")]))
+    # parents that differ only in HAVING an ancestor are different parents (a block on mid<-top and a block on a bare mid)
+    def _depth_pair():
+        top = Parent(id="top", sequence_type="chromosome", location=SingleInterval(100, 140, P))
+        return SingleInterval(0, 2, P, parent=Parent(id="mid", sequence_type="contig", parent=top)), SingleInterval(3, 5, P, parent=Parent(id="mid", sequence_type="contig"))
+
+    add("from_single_intervals(parents differ in depth)", lambda: CompoundInterval.from_single_intervals(list(_depth_pair())), must_refuse=True)
+    add("from_single_intervals(parents differ in depth, reversed)", lambda: CompoundInterval.from_single_intervals(list(_depth_pair())[::-1]), must_refuse=True)
+
+    def _bare_after_deep():
+        top = Parent(id="top", sequence_type="chromosome", location=SingleInterval(100, 140, P))
+        Parent(id="leaf", parent=Parent(id="mid", parent=top))
+        return Parent(id="leaf", parent=Parent(id="mid")).first_ancestor_of_type("chromosome")
+
+    def _deep_after_bare():
+        top = Parent(id="top", sequence_type="chromosome", location=SingleInterval(100, 140, P))
+        Parent(id="leaf2", parent=Parent(id="mid2"))
+        return Parent(id="leaf2", parent=Parent(id="mid2", parent=top)).first_ancestor_of_type("chromosome").id == "top" or 1 / 0
+
+    add("Parent without ancestor, built after a deeper namesake: first_ancestor_of_type", _bare_after_deep, must_refuse=True)
+    add("Parent with ancestor, built after a bare namesake: first_ancestor_of_type", _deep_after_bare)
     add("SingleInterval(parent=int)", lambda: SingleInterval(0, 2, P, parent=5), well_typed=False)
     # Parent
     add("Parent(id mismatch loc)", lambda: Parent(id="a", location=SingleInterval(0, 2, P, parent="b")))
@@ -305,6 +325,13 @@ def ctor_cases():
     add("Variant(bad alphabet)", lambda: VariantInterval(2, 3, "X", "SNV"))
     add("Variant(beyond sequence)", lambda: VariantInterval(N - 1, N + 4, "A", "del", parent_or_seq_chunk_parent=chrom()))
     add("VariantCollection(overlapping)", lambda: VariantIntervalCollection([VariantInterval(1, 4, "A", "del"), VariantInterval(3, 5, "C", "del")]))
+    # (the refusal of an overlapping pair does not depend on where in the list the two variants stand: every listing order
+    # of three variants, two of which overlap - also with the disjoint one BETWEEN them)
+    tri = [(1, 4, "A"), (3, 5, "C"), (8, 9, "G")]
+    for pm in itertools.permutations(range(3)):
+        add(f"VariantCollection(overlapping pair, order {pm})", lambda pm=pm: VariantIntervalCollection([VariantInterval(tri[i][0], tri[i][1], tri[i][2], "del") for i in pm]), must_refuse=True)
+        add(f"VariantCollection(overlapping pair, order {pm}, chromosome)", lambda pm=pm: VariantIntervalCollection(
+            [VariantInterval(tri[i][0], tri[i][1], tri[i][2], "del", parent_or_seq_chunk_parent=chrom()) for i in pm], parent_or_seq_chunk_parent=chrom()), must_refuse=True)
     add("VariantCollection([])", lambda: VariantIntervalCollection([]))
     add("Variant(no sequence).alternative_genomic_sequence", lambda: VariantInterval(2, 3, "A", "SNV").alternative_genomic_sequence)
     # AnnotationCollection
